@@ -19,7 +19,7 @@ Definition unquote_table : list (list N * list N) := [([37; 50; 70], [47]); ([37
 Definition requote_fix : list N * list N := ([37; 50; 53], [37]).
 
 (* _get_resource_index_key: canonical.partition(ik_brace)[0].rpartition(ik_sep)[0] when ik_brace occurs;
-   then _path_safe(.rstrip(ik_sep)) or ik_sep *)
+   then .rstrip(ik_sep), its _path_safe form unless the resource is a PlainResource, or ik_sep *)
 Definition ik_brace : N := 123.
 Definition ik_sep : N := 47.
 
